@@ -112,6 +112,13 @@ theorem C20_keys :
     (∀ k ∈ bundleConsumerFile, ("string:" ++ k) ∈ bundleProducerFile) ∧
     bundleConsumerTop = ["files"] ∧ bundleConsumerFile = ["content"] := by decide
 
+/-- Regenerated: the bytes `json.MarshalIndent` returns are the bytes written, and the bytes read from the
+    response are the bytes decoded — nothing rewrites them in between (the model's `produce` / `consume`
+    have no such stage). -/
+theorem C20_bytes_untouched :
+    bundleProducerBytesFlow = ["lhs:json.MarshalIndent", "arg:os.WriteFile"] ∧
+    bundleConsumerBytesFlow = ["lhs:io.ReadAll", "arg:json.Unmarshal"] := by decide
+
 /-- Non-vacuity: quotes, backslash, newline, `<`, U+2028 and a non-BMP character; a non-.cql file is skipped. -/
 example :
     consume (produce [⟨"a.cql".toList, "say \"hi\" \\ <b>\n 😀".toList⟩, ⟨"notes.txt".toList, "x".toList⟩, ⟨"b.x.cql".toList, [Char.ofNat 1]⟩])
